@@ -16,7 +16,7 @@ pub static DEF: PropertyDef = PropertyDef {
            recorded delivery history: no message is delivered twice between resets; a message is delivered with the type its text states; the handler deliveries of a continue \
            equal the messages the no-handler twin newly exposes in that continue; without a handler a continue returns Err exactly when it raised an error and never for a \
            warning, errors stay readable until reset, warnings are readable after the continue that raised them; a delivered line that carries a warning site comes with its \
-           warning; the warning of a statement without text is delivered by the time the story has passed it; after an error the story cannot continue until reset; after reset no message is left. \
+           warning; the warning of a statement without text is delivered by the time the story has passed it; after an error the story cannot continue until reset or until the host redirects it (to a knot of plain text, which must then play without any message being delivered); after reset no message is left. \
            Non-trivial = at least one warning or error was delivered; distinct = hash of program+history.",
     assumptions: &["sites are placed only in code that runs at most once between resets (knots reached by forward diverts), so a repeated message is a repeated delivery"],
     runs_quick: 10000,
@@ -24,7 +24,7 @@ pub static DEF: PropertyDef = PropertyDef {
     exhaustive_note: "none (sampled programs and histories)",
     generate,
     execute,
-    must_hit: &["fault.message.warning_delivered", "fault.message.error_delivered", "fault.message.version_warning", "fault.message.continue_after_warning", "fault.message.reset_after_error", "fault.slice.message_in_sliced_continue", "fault.message.silent_site_passed"],
+    must_hit: &["fault.message.warning_delivered", "fault.message.error_delivered", "fault.message.version_warning", "fault.message.continue_after_warning", "fault.message.reset_after_error", "fault.slice.message_in_sliced_continue", "fault.message.silent_site_passed", "fault.message.redirect_after_error"],
     timeout_s: 30,
     hang_class: None,
     sub_builds: &[],
@@ -44,6 +44,16 @@ fn generate(_corpus: &Corpus, tier: Tier, run: u64, rng: &mut Rng) -> Option<Cas
     g.stmts = 3 + rng.below(5);
     g.knots = 2 + rng.below(3);
     let mut prog = crate::inkgen::generate(rng, &g)?;
+    // a knot of plain text to redirect the story to (after an error, or at any other time): nothing in it
+    // raises a message, so whatever is delivered while it plays is a re-delivery
+    if let Some(src) = prog.source.clone() {
+        let ext = format!("{src}\n=== zz_redirect ===\nredirected line one\nredirected line two\n-> END\n");
+        if let Ok(json) = crate::corpus::compile_source(&ext, None)
+            && let Some(p2) = Program::from_json("generated", &prog.name, Some(ext), json)
+        {
+            prog = p2;
+        }
+    }
     let restamp = rng.chance(1, 3);
     if restamp {
         prog.json = prog.json.replacen("\"inkVersion\":21", "\"inkVersion\":20", 1);
@@ -69,6 +79,11 @@ fn generate(_corpus: &Corpus, tier: Tier, run: u64, rng: &mut Rng) -> Option<Cas
         ops.push(Op::Choose(rng.below(5) as u32));
         if rng.chance(1, 6) {
             ops.push(Op::Reset);
+        } else if rng.chance(1, 5) {
+            // the host redirects the story (often right after an error stopped it)
+            ops.push(Op::Jump { path: "zz_redirect".into(), reset: true, args: vec![] });
+            ops.push(Op::Continue);
+            ops.push(Op::Continue);
         }
     }
     // always end with: reset and play again (messages must not outlive a reset; sites fire again)
@@ -129,6 +144,7 @@ fn execute(case: &Case) -> CaseResult {
     }
     let mut delivered_in_epoch: Vec<String> = Vec::new();
     let mut silent_pending: Vec<String> = Vec::new();
+    let mut redirected = 0u32;
     let mut in_sync = true;
     let mut h_errored = false;
     let mut version_deliveries = 0u32;
@@ -164,6 +180,7 @@ fn execute(case: &Case) -> CaseResult {
             }
             delivered_in_epoch.clear();
             silent_pending.clear();
+            redirected = 0;
             in_sync = true;
             h_errored = false;
             continues_in_epoch = 0;
@@ -174,6 +191,34 @@ fn execute(case: &Case) -> CaseResult {
         let mark = h.log.borrow().len();
         let can_h = h.can_continue();
         let rh = h.apply(op);
+        if let Op::Jump { path, .. } = op
+            && path == "zz_redirect"
+        {
+            // from here the two peers are no longer comparable (the twin may hold an unhandled error),
+            // and sites the story was heading for are never reached
+            in_sync = false;
+            silent_pending.clear();
+            if matches!(rh, Res::Ok(_)) {
+                redirected = 2;
+                if h_errored {
+                    res.stats.inc("fault.message.redirect_after_error");
+                }
+                h_errored = false;
+            }
+            continue;
+        }
+        if redirected > 0 && matches!(op, Op::Continue | Op::ContinueSliced { .. }) {
+            redirected -= 1;
+            let msgs: Vec<String> = h.log.borrow()[mark..].iter().filter_map(|e| match e { Ev::Handler { msg, .. } => Some(short(msg)), _ => None }).collect();
+            let line = h.log.borrow()[mark..].iter().find_map(|e| match e { Ev::Line { text, .. } => Some(text.clone()), _ => None }).unwrap_or_default();
+            if !matches!(rh, Res::Ok(_)) || !line.starts_with("redirected line") {
+                fail!("message:stuck-after-redirect", "choose_path_string", "the redirected story does not play the lines it was sent to", at.clone(), "redirected line ...".to_string(), format!("{} {:?}", rh.brief(), line));
+                redirected = 0;
+            } else if !msgs.is_empty() {
+                fail!("message:duplicate", "redirect", "a message was delivered while plain text played after a redirect: an earlier message again", at.clone(), "no message".to_string(), format!("{:?}", msgs));
+            }
+            continue;
+        }
         if h.fuel_out {
             res.discard = Some("fuel".into());
             return res;
